@@ -1,12 +1,15 @@
 import IPT.Lemmas.Trig
 import IPT.Model.Qibla
+import IPT.Model.Fmt
+import IPT.Thm.C18
 /-
   C16 — Qibla is the great-circle bearing to the Kaaba.  Over ℝ: the reported angle is the angle,
   measured from true north towards WEST (counter-clockwise seen from above), of the direction from
   the observer to the Kaaba, computed from 3-D unit vectors; it lies in (-180°, 180°].  Elevation:
   the model function takes latitude and longitude only - a modelling choice that the translator backs
   (`Qibla::new` must not mention `elevation`, gen_consts group `qibla`) and the falsifier exercises
-  with random elevations; `qibla_elevation_independent` states it for the record.  The one-decimal text rendering is checked by the falsifier.
+  with random elevations; `qibla_elevation_independent` states it for the record.  The one-decimal text (`impl Display for Qibla`) is modelled at the bit level in Model/Fmt.lean
+  (units `fmt1`, `qtext`); `text_magnitude`, `text_label` below state what it shows.
 -/
 namespace IPT.C16
 open IPT IPT.TrigLemmas Real
@@ -80,6 +83,93 @@ theorem rotation_sign (deg : ℝ) : (rotation deg = .Cw ↔ deg < 0) ∧ (rotati
   simp only [rotation, sc_ltb, lit_zero]
   by_cases h : deg < 0 <;> simp [h]
   exact not_lt.mp h
+
+
+/-! ### The printed text (`{:.1}° CW|CCW`) agrees with the magnitude and the sign -/
+section text
+open IPT.F64
+
+/-- round-half-even division is within half a unit: |q·d − n| ≤ d/2 -/
+theorem roundDivEven_spec (n d : Nat) (hd : 0 < d) :
+    2 * (roundDivEven n d * d) ≤ 2 * n + d ∧ 2 * n ≤ 2 * (roundDivEven n d * d) + d := by
+  unfold roundDivEven
+  have hn := Nat.div_add_mod n d
+  have hr := Nat.mod_lt n hd
+  have e1 : n / d * d = d * (n / d) := Nat.mul_comm _ _
+  have e2 : (n / d + 1) * d = d * (n / d) + d := by rw [Nat.add_mul, Nat.one_mul, Nat.mul_comm]
+  simp only
+  split
+  · rw [e1]; omega
+  · split
+    · rw [e2]; omega
+    · split
+      · rw [e1]; omega
+      · rw [e2]; omega
+
+/-- **the printed magnitude is the angle's magnitude to the nearest tenth**: with |x| =
+    scaledMag m / 2^1074 the exact value of the magnitude bits and t the printed number of tenths
+    (the text is `t/10 "." t%10`), |t/10 − |x|| ≤ 1/20 - stated without division:
+    |2·t·2^1074 − 20·|x|·2^1074| ≤ 2^1074 -/
+theorem text_magnitude (m : Nat) :
+    2 * (tenthsOfMag m * 2 ^ 1074) ≤ 20 * scaledMag m + 2 ^ 1074 ∧
+    20 * scaledMag m ≤ 2 * (tenthsOfMag m * 2 ^ 1074) + 2 ^ 1074 := by
+  have h := roundDivEven_spec (10 * scaledMag m) (2 ^ 1074) (Nat.two_pow_pos _)
+  unfold tenthsOfMag
+  omega
+
+/-- the same over ℚ: the printed tenths differ from the exact magnitude by at most 0.05 -/
+theorem text_magnitude_rat (m : Nat) :
+    |(tenthsOfMag m : ℚ) / 10 - (scaledMag m : ℚ) / ((2 ^ 1074 : ℕ) : ℚ)| ≤ 1 / 20 := by
+  have key : ∀ (t s D : ℕ), 0 < D → 2 * (t * D) ≤ 20 * s + D → 20 * s ≤ 2 * (t * D) + D →
+      |(t : ℚ) / 10 - (s : ℚ) / (D : ℚ)| ≤ 1 / 20 := by
+    intro t s D hD h1 h2
+    have p : (0 : ℚ) < D := by exact_mod_cast hD
+    have h1' : 2 * ((t : ℚ) * D) ≤ 20 * s + D := by exact_mod_cast h1
+    have h2' : 20 * (s : ℚ) ≤ 2 * ((t : ℚ) * D) + D := by exact_mod_cast h2
+    have e : (t : ℚ) / 10 - (s : ℚ) / D = (t * D - 10 * s) / (10 * D) := by field_simp
+    rw [e, abs_le]
+    constructor
+    · rw [le_div_iff₀ (by positivity)]; linarith
+    · rw [div_le_iff₀ (by positivity)]; linarith
+  obtain ⟨h1, h2⟩ := text_magnitude m
+  exact key _ _ _ (Nat.two_pow_pos _) h1 h2
+
+/-- **the printed label agrees with the sign**: `CW` is printed exactly when the angle is a number
+    below zero (exact value of the bit pattern negative); zero, positive angles (and -0.0) print `CCW` -/
+theorem text_label (b : Nat) :
+    rotationIsCw b = true ↔ (isNaN b = false ∧ scaled b < 0) := by
+  unfold rotationIsCw lt
+  have hz : isNaN 0 = false := by decide
+  have hk : key 0 = 0 := by decide
+  have hs : scaled 0 = 0 := by decide
+  have h := C18.key_le_iff_scaled_le 0 b
+  rw [hk, hs] at h
+  simp only [hz, Bool.not_false, Bool.and_true, Bool.and_eq_true, Bool.not_eq_true', decide_eq_true_eq, hk]
+  constructor
+  · rintro ⟨a, c⟩; exact ⟨a, by have := h.not; omega⟩
+  · rintro ⟨a, c⟩; exact ⟨a, by have := h.not; omega⟩
+
+/-- the text is the printed magnitude, a degree sign and the label, in that order -/
+theorem text_shape (b : Nat) :
+    qiblaText b = fmt1Abs b ++ "° " ++ (if rotationIsCw b then "CW" else "CCW") := rfl
+
+/-- for a finite angle the printed magnitude is `t/10 "." t%10` with t = `tenthsOfMag` of the magnitude bits -/
+theorem text_digits (b : Nat) (hf : isFinite b = true) :
+    fmt1Abs b = toString (tenthsOfMag (magBits b) / 10) ++ "." ++ toString (tenthsOfMag (magBits b) % 10) := by
+  have hn : isNaN b = false := by
+    unfold isNaN; unfold isFinite at hf
+    simp only [bne_iff_ne, ne_eq] at hf
+    simp [hf]
+  have hi : isInf b = false := by
+    unfold isInf; unfold isFinite at hf
+    simp only [bne_iff_ne, ne_eq] at hf
+    simp [hf]
+  simp only [fmt1Abs, hn, hi, Bool.false_eq_true, if_false]
+
+-- non-vacuity / examples: 0.25 and 0.75 are ties (printed 0.2 and 0.8: to even); -58.83° prints "58.8° CW"
+example : tenthsOfMag (magBits 0x3fd0000000000000) = 2 ∧ tenthsOfMag (magBits 0x3fe8000000000000) = 8 := by decide +kernel
+
+end text
 
 /-- positive = west of north: due east of the Kaaba on its parallel the Kaaba lies to the west, K·west > 0 -/
 example : dot (unitVec 0 0) (westVec (Real.pi / 2)) = 1 := by
